@@ -1934,6 +1934,11 @@ func (fv *FuncVerifier) callUnknown(st *State, env *Env, call *ast.CallExpr, fn 
 	if fn.Pkg() != nil {
 		pkgPath = fn.Pkg().Path()
 	}
+	if pkgPath == "go/ast" && hasRecv && (fn.Name() == "Pos" || fn.Name() == "End") {
+		// Pos / End of a syntax node: one observer, whether it is called on the concrete node type or through ast.Node
+		// (dynamic dispatch reaches the same method) - so a helper taking ast.Node proves what the direct call proved
+		full = "(go/ast.Node)." + fn.Name()
+	}
 	policy := externPolicy(pkgPath, full)
 	if fv.mapRangeDepth > 0 && !strings.HasPrefix(pkgPath, repoModule) {
 		// a function value (an iterator, a callback) that is not a literal handed to code outside /repo may be run there
